@@ -50,6 +50,10 @@ def select_members(prop: str, tier: str, seed: int):
     else:
         trivs = list(family.TRIVIA)
     mem = family.family(trivs)
+    if tier == "quick":
+        # the two COMMENT-only configurations run in a third of the contexts in the quick tier
+        mem += family.family(["cm"], ctxs=["top", "seqL", "star", "alt1", "m@", "a!", "opt", "not"])
+        mem = [m for m in mem if m["triv"] != "cmn" or m["ctx"] in ("top", "seqL", "seqR", "star", "plus", "alt1", "alt2", "m@", "m!", "a!", "a=", "opt", "and")]
     if prop in ("C05", "C01", "C07", "C06"):
         mem += family.stack_family()
     if tier == "thorough":
